@@ -268,6 +268,15 @@ class C17Executor(Executor):
             rel = "/".join(parts)
             if os.path.exists(os.path.join(self.module.repo, rel + ".py")) or os.path.exists(os.path.join(self.module.repo, rel, "__init__.py")):
                 return VMod(dotted)
+        if parts[0] != "sharepoint2text" and dotted not in self.reg.ext_models and dotted not in self.reg.fn:
+            # relative import (`from .html_extractor import read_html`, `from . import html_extractor`, `from ..x import y`):
+            # the loader keeps the module path as written; try it against the package of this module and its ancestors
+            pkg = self.module.rel.split("/")[:-1]
+            while pkg and pkg[0] == "sharepoint2text":
+                base = "/".join(pkg + [parts[0]])
+                if os.path.exists(os.path.join(self.module.repo, base + ".py")) or os.path.exists(os.path.join(self.module.repo, base, "__init__.py")):
+                    return self.resolve_dotted(".".join(pkg + parts))
+                pkg = pkg[:-1]
         return super().resolve_dotted(dotted)
 
     # ---- round 3: what the container / parser glue functions need (contracts/C17_glue.py) ----
@@ -373,6 +382,17 @@ class C17Executor(Executor):
                 G.log(st, "other", a, f"passed to {what} at {self.loc(node)}")
         return super().havoc_call(st, what, args, node)
 
+    def binop(self, st, op, a, b, node, inplace=False):
+        o = self._ol(st, a)
+        if o is not None and op == "Add":
+            items = self.concrete_items(st, b)
+            if items is not None:
+                if inplace:                 # xs += [x, ...]  ==  xs.extend([...])
+                    self.note_store(st, a.ref, node)
+                    st.wobj(a.ref).data["tail"] = o.data["tail"] + tuple(items)
+                    return [(st, None)]
+        return super().binop(st, op, a, b, node, inplace)
+
     def b_super(self, st, args, kwargs, node):
         return [(st, VExt("HTMLParserBase"))]
 
@@ -394,6 +414,8 @@ class C17Executor(Executor):
             return super().get_index(st, base, idx, node)
         c = idx.const() if isinstance(idx, VInt) else None
         tail = o.data["tail"]
+        if c is None and isinstance(idx, VInt) and not self.feasible(st.pc, idx.t != o.data["blen"] + len(tail) - 1):
+            c = -1                      # `xs[len(xs) - 1]`
         if c is not None and c < 0 and -c <= len(tail):
             return [(st, tail[c])]
         if c == -1:
@@ -444,6 +466,10 @@ class C17Executor(Executor):
             self.note_store(st, obj.ref, node)
             st.wobj(obj.ref).data["tail"] = tail + (args[0],)
             return [(st, NONE)]
+        if name == "extend" and len(args) == 1 and self.concrete_items(st, args[0]) is not None:
+            self.note_store(st, obj.ref, node)
+            st.wobj(obj.ref).data["tail"] = tail + tuple(self.concrete_items(st, args[0]))
+            return [(st, NONE)]
         if name == "pop" and not args:
             self.note_store(st, obj.ref, node)
             if tail:
@@ -482,8 +508,10 @@ class C17Executor(Executor):
         return super().contains(st, container, item, node)
 
     def str_method(self, st, s, name, args, kwargs, node):
-        if self.opaque_str and name == "startswith" and s.const() is None and len(args) == 1 and isinstance(args[0], VStr):
-            return [(st, VBool(STR_STARTS(s.t, args[0].t)))]
+        if self.opaque_str and name == "startswith" and s.const() is None and len(args) == 1:
+            cands = list(args[0].items) if isinstance(args[0], VTuple) else [args[0]]
+            if cands and all(isinstance(x, VStr) for x in cands):
+                return [(st, VBool(z3.Or([STR_STARTS(s.t, x.t) for x in cands])))]
         return super().str_method(st, s, name, args, kwargs, node)
 
 
@@ -1043,16 +1071,24 @@ def policy(repo, tier):
                  "parse_comment", "parse_html_declaration", "parse_marked_section", "parse_pi", "set_cdata_mode", "clear_cdata_mode"}
     for m, cls, short in ((h, HCLS, "html_extractor.py"), (e, ECLS, "epub_extractor.py")):
         node = m.classes.get(cls)
-        ok = node is not None and [ast.unparse(b) for b in node.bases] == ["HTMLParser"] and m.imports.get("HTMLParser") == "html.parser.HTMLParser"
+        ok = node is not None and len(node.bases) == 1 and C17_sites.is_library_parser(m, node.bases[0])
         over = sorted(n.name for n in (node.body if node else []) if isinstance(n, ast.FunctionDef) and n.name in callbacks - under)
         P(f"C17/{short}::{cls}/call-site#only-contracted-parser-callbacks-overridden", ok and not over, f"base ok={ok}; overrides outside the contracts: {over}")
         init = m.functions.get(f"{cls}.__init__")
-        sup = [c_ for c_ in _calls(init) if ast.unparse(c_.func) in ("super().__init__", "HTMLParser.__init__", f"super({cls}, self).__init__")] if init else []
+        def base_init(c_):
+            """super().__init__(..) / super(C, self).__init__(..) -> 0 ; <library base>.__init__(self, ..) -> 1 (positional self); else None"""
+            f_ = c_.func
+            if not (isinstance(f_, ast.Attribute) and f_.attr == "__init__"):
+                return None
+            if isinstance(f_.value, ast.Call) and dotted(f_.value.func) == "super":
+                return 0
+            return 1 if C17_sites.is_library_parser(m, f_.value) else None
+        sup = [c_ for c_ in _calls(init) if base_init(c_) is not None] if init else []
         kw = {k.arg: ast.unparse(k.value) for c_ in sup for k in c_.keywords}
         # convert_charrefs defaults to True (Python >= 3.5); no __init__ at all inherits that default
         P(f"C17/{short}::{cls}.__init__/call-site#charrefs-converted-so-text-arrives-only-through-handle_data",
           (init is None or len(sup) == 1) and kw.get("convert_charrefs", "True") == "True"
-          and not any(len(c_.args) > (1 if ast.unparse(c_.func) == "HTMLParser.__init__" else 0) for c_ in sup), f"base __init__ keywords: {kw}")
+          and not any(len(c_.args) > base_init(c_) for c_ in sup), f"base __init__ keywords: {kw}")
         if init is not None:
             fns.append(dict(m.fn_info(f"{cls}.__init__"), obligations=1))
 
